@@ -87,6 +87,16 @@ package configuration
 // record invariant: both value maps are keyed by the paths of their values
 //@   ensures err == nil ==> keyedByPath(result.Values) && keyedByPath(result.Status.Applied.Values)
 
+// the records a List hands out are decoded from the store: no nil element; a watch registers a watcher and
+// writes nothing
+//@ iface Store.List(ctx) (result, err)
+//@   modifies nothing
+//@   ensures forall c in result :: c != nil
+//@   ensures errWF(err)
+//@ iface Store.Watch(ctx, ch, opts) (err)
+//@   modifies nothing
+//@   ensures errWF(err)
+
 //@ iface Store.Create(ctx, configuration) (err)
 //@   requires configuration != nil
 //@   modifies configuration.ObjectMeta, cfgCreates
